@@ -120,10 +120,11 @@ int main (int argc, char **argv)
 		for (c = 0 ; c < nch ; c++) for (k = 0 ; k < (vh_thorough ? 80 : 8) ; k++)
 		{	JOB j ; long i, items ; int B ;
 			if (chs [c] > 17 && k > 0) continue ;
+			if (k == 2 && !vh_sample_granular (format)) vh_nostride_next = 1 ;		/* job 2 of a block codec is a file shorter than one block: always part of the memcheck sample */
 			if (!vh_case ("%s ch=%d job=%d", vh_fname (format), chs [c], k)) continue ;
 			B = vh_block (format, chs [c], 8000) ;
 			j.format = format ; j.ch = chs [c] ; j.rate = 8000 ; j.t = (k + (int) vh_seed0) % T_N ; j.meta = (k >> 1) & 1 ;
-			j.N = k == 0 ? (B > 1 ? 3 * B + 7 : 3001) : k == 1 ? 4097 / chs [c] + 2 : 1 + vh_rint (B > 1 ? 5 * B : 7000) ;
+			j.N = k == 0 ? (B > 1 ? 3 * B + 7 : 3001) : k == 1 ? 4097 / chs [c] + 2 : (k == 2 && B > 2) ? 1 + vh_rint (B - 2) : 1 + vh_rint (B > 1 ? 5 * B : 7000) ;
 			if (j.N * j.ch > 70000) j.N = 70000 / j.ch ;
 			items = j.N * j.ch ; j.data = vh_guard_alloc (items * 8, 0) ;
 			for (i = 0 ; i < items ; i++)
